@@ -3,6 +3,7 @@ import Eru.Cluster2.Spec
 import Eru.Cluster2.Lambda
 import Eru.Cluster2.NodeDown
 import Eru.Cluster2.Interleave
+import Eru.Cluster2.StatusSpec
 /- Oracle for the cluster2 group (C14, C30, C28, C22 and the cluster-level stream of C13): runs
    the model on the case, compares with the implementation's snapshots and evaluates the
    specification predicates on the implementation's output. Not part of any model or proof. -/
@@ -377,5 +378,31 @@ def handle (j : Json) : Json :=
       viol (s!"sched:{opName a}|{opName b}" ++ (if bBlocked then ":blocked" else "")) (labs.isEmpty)
 
 end RIO
+
+/-! ### C13, cluster-level stream -/
+namespace DSO
+open Eru.Cluster2.DS
+
+def countsOfJson (j : Json) : Counts := (jobjList j).map fun (k, v) => (k, jnat v)
+def obsOfJson (j : Json) : Obs :=
+  { status := countsOfJson (jget j "status"), recorded := countsOfJson (jget j "recorded"), markers := countsOfJson (jget j "markers") }
+
+def handle (j : Json) : Json :=
+  let id := jget j "id"
+  let nodes := strs (jget j "nodes")
+  let prior := countsOfJson (jget j "prior")
+  let planned := countsOfJson (jget j "planned")
+  let obs := (jarr (jget j "obs")).map obsOfJson
+  let after := obsOfJson (jget j "after")
+  let agree := (obs ++ [after]).all (sumOK nodes)
+  let viol := (obs.flatMap (duringViolations nodes prior planned)).eraseDups ++ afterViolations nodes after
+  let errs := jint (jget j "errors")
+  let shape := jget j "shape"
+  let cls := "status:" ++ (if errs == 0 then "ok" else if errs < 0 then "refused" else "partial") ++
+    (if jstr (jget shape "fault") != "" then "+fault" else "") ++
+    (if (jarr (jget shape "start_fail")).length > 0 then "+startfail" else "")
+  verdict id agree (Json.mkObj [("observations", obs.length)]) viol cls (obs.length < 2)
+
+end DSO
 
 end Oracle.Cluster2
